@@ -94,7 +94,7 @@ def c10Step (s : St) (line : String) : St × String :=
     match hexToBits k with
     | some kb => (s, (get s.cur kb).getD "nil")
     | none => (s, "bad-op")
-  | ["keys"] => (s, "keys " ++ ",".intercalate ((keysOf s.cur []).map bitsToHex))
+  | ["keys"] => (s, "keys " ++ ",".intercalate (((keysOf s.cur []).map bitsToHex).toArray.qsort (· < ·)).toList)
   | ["commit"] => ({ s with committed := s.committed.push s.cur, un := [], committedH := s.committedH.push s.curH }, s!"ok {s.committed.size}")
   | ["reopen", i] =>
     match i.toNat? with
